@@ -104,7 +104,7 @@ def run_world(scn, plan=None, monitor=None, pauses=None, persist='none', wn=None
                 wn = pickle.loads(pickle.dumps(wn))
             elif persist == 'deepcopy':
                 wn = copy.deepcopy(wn)
-            rec.min_time = float(wn.sim_time)
+            rec.min_time = float(stop)      # the continued run must only solve times after the pause
             # a failed part stops the history
             if res.error_code is not None:
                 break
